@@ -351,7 +351,7 @@ def impl(case):
                     e, 'is empty' if e in alive else 'is not empty', 'a' if e in alive else 'no'))
         # H, E
         for mid, model in models:
-            own = set(n for n, v in descs[mid]['cls'] + descs[mid]['inst'] if v[0] == 'pre')
+            own = set(n for n, v in descs[mid]['cls'] + descs[mid]['inst'] if v[0] in ('pre', 'own'))
             for e in hnames:
                 if e in own:
                     if c11.kind_of(objs, mid, model, e, 'state')[0] != 0:
@@ -442,7 +442,7 @@ def kf_remove_class(case):
     own = set()
     for op in case['ops']:
         if op[0] == 'model':
-            own |= set(n for n, v in op[1]['cls'] + op[1]['inst'] if v[0] == 'pre')
+            own |= set(n for n, v in op[1]['cls'] + op[1]['inst'] if v[0] in ('pre', 'own'))
     return any(op[0] == 'rmt' and op[1] in own for op in case['ops'])
 
 
@@ -456,7 +456,7 @@ def only_kf1_failures(case, obs):
     own = set()
     for op in case['ops']:
         if op[0] == 'model':
-            own |= set(n for n, v in op[1]['cls'] + op[1]['inst'] if v[0] == 'pre')
+            own |= set(n for n, v in op[1]['cls'] + op[1]['inst'] if v[0] in ('pre', 'own'))
     clash = set(op[1] for op in case['ops'] if op[0] == 'rmt' and op[1] in own)
     for f in obs[1]:
         msg = un_str(f)
